@@ -3,7 +3,7 @@
 # SPDX-License-Identifier: Apache License 2.0
 import numpy
 
-from libsigopt.compute.covariance_base import DifferentiableCovariance
+from libsigopt.compute.covariance_base import DifferentiableCovariance, HyperparameterInvalidError
 
 
 """
@@ -82,6 +82,8 @@ class MultitaskTensorCovariance(DifferentiableCovariance):
     """We choose to deal with the process_variance as part of the full kernel, not the component kernels."""
     hyperparameters = numpy.copy(hyperparameters)
     assert len(hyperparameters.shape) == 1 and len(hyperparameters) >= 3
+    if not (numpy.isfinite(hyperparameters[0]) and hyperparameters[0] > 0):
+      raise HyperparameterInvalidError()
 
     self.process_variance = hyperparameters[0]
 
